@@ -758,8 +758,9 @@ def build(d):
             import batchie.sampling
             from batchie.core import ThetaHolder
             m = o()
-            kw = {} if d["model"] == "ComboGridFactorModel" else dict(n_chains=d["n_chains"], chain_index=d["chain_index"], n_burnin=d["n_burnin"],
-                                                                      thin=d["thin"])
+            # a VIModel needs n_chains / chain_index too since the repair of C17's vi-chains-share-generator (n_burnin / thin stay unread)
+            kw = dict(n_chains=d.get("n_chains", 1), chain_index=d.get("chain_index", 0)) if d["model"] == "ComboGridFactorModel" else \
+                dict(n_chains=d["n_chains"], chain_index=d["chain_index"], n_burnin=d["n_burnin"], thin=d["thin"])
             with mock.patch("tqdm.tqdm.__init__", _quiet_tqdm_init):
                 res = batchie.sampling.sample(model=m, results=ThetaHolder(n_thetas=d["n_thetas"]), seed=seed, **kw)
             return [[[kk, cv(np.asarray(vv))] for kk, vv in sorted(res.get_theta(i).private_parameters_dict().items())
